@@ -20,7 +20,7 @@ type c17Case struct {
 	Slot  string   `json:"slot"`  // missing | equal | different
 }
 
-var c17Atoms = []string{"ok-any", "ok-type", "ok-custom", "miss-any", "miss-type", "miss-custom", "bad-type", "bad-custom", "bad-type2", "bad-syntax", "bad-type-null", "bad-custom-chan", "bad-any-child-after-parent", "bad-type-tagged", "bad-type-anchored", "bad-custom-alias", "miss-type-between", "miss-any-extends", "bad-type-malformed-among", "bad-type-kind", "miss-custom-wild"}
+var c17Atoms = []string{"ok-any", "ok-type", "ok-custom", "miss-any", "miss-type", "miss-custom", "bad-type", "bad-custom", "bad-type2", "bad-syntax", "bad-type-null", "bad-custom-chan", "bad-any-child-after-parent", "bad-type-tagged", "bad-type-anchored", "bad-custom-alias", "miss-type-between", "miss-any-extends", "bad-type-malformed-among", "bad-type-kind", "miss-custom-wild", "bad-typeany-null"}
 
 const (
 	c17JSONDoc  = `{"a":1,"b":"x","c":{"d":true},"e":2,"n":null,"f":2.5,"g":7,"arr":[{"id":1},{"k":0},{"id":3}]}`
@@ -198,6 +198,11 @@ func c17Build(api string, atoms []string, eomp bool, dropMissing bool) c17Built 
 				})) // `*an` is the number 4
 				b.fails = append(b.fails, `Custom("$.al")`)
 			}
+		case "bad-typeany-null":
+			// an explicit null holds no value of any type, interface types included; a failing path listed BEFORE a satisfied one
+			m := match.Type[any](p("n"), p("b")).ErrOnMissingPath(eomp)
+			b.jm, b.ym = append(b.jm, m), append(b.ym, m)
+			b.fails = append(b.fails, `Type("`+p("n")+`")`)
 		case "bad-type-kind":
 			// the two composite kinds are different types: a list expected where a mapping is, a mapping expected where a list is
 			m1, m2 := match.Type[[]any](p("c")).ErrOnMissingPath(eomp), match.Type[map[string]any](p("arr")).ErrOnMissingPath(eomp)
@@ -394,6 +399,23 @@ func c17Run(c *vfCtx, cs c17Case) {
 		}
 		if t.outcome(mk) != "added" || !ok {
 			c.violation("", fmt.Sprintf("after the failing call the next call of the test did not address slot 2 (%s)", t.outcome(mk)), cs)
+			return
+		}
+		// the same matcher VALUES used for another call (a package-level matcher list, a loop, -count 2): the same failure again
+		vfResetState(ci, env, true)
+		tr := &vfT{name: "TestR"}
+		do(mkcfg(dir), tr, doc, b)
+		tr.end()
+		c.count("transitions", 1)
+		if len(tr.errs) != 1 {
+			c.violation("", fmt.Sprintf("matchers %v (failing: %v) used a second time: expected exactly one failure again, got errors=%d logs=%d %v", cs.Atoms, b.fails, len(tr.errs), len(tr.logs), tr.errs), cs)
+			return
+		}
+		for _, f := range b.fails {
+			if !c17Named(tr.errs[0], f) {
+				c.violation("", fmt.Sprintf("matchers %v used a second time: the failure must name match.%s, it says: %q", cs.Atoms, f, vfClip(tr.errs[0])), cs)
+				return
+			}
 		}
 		return
 	}
